@@ -11,6 +11,7 @@ mod genmod;
 mod mdmod;
 mod rendermod;
 mod rulesmod;
+mod shellmod;
 mod updatemod;
 mod util;
 mod yamlmod;
@@ -24,6 +25,7 @@ fn main() {
         "diff-probe" => diffmod::probe(&args),
         "rules-replay" => rulesmod::replay(&args),
         "md-replay" => mdmod::replay(&args),
+        "shell-replay" => shellmod::replay(&args),
         "render-replay" => rendermod::replay(&args),
         "yaml-replay" => yamlmod::replay(&args),
         "config-replay" => configmod::replay(&args),
